@@ -176,7 +176,7 @@ static sqf::runtime::runtime::result execute_do(sqf::runtime::runtime& runtime, 
         auto instruction_ptr = *frame.current();
         auto instruction = &instruction_ptr;
         if (runtime.configuration().max_runtime != std::chrono::milliseconds::zero() &&
-            runtime.configuration().max_runtime + runtime.runtime_timestamp() < std::chrono::system_clock::now())
+            runtime.configuration().max_runtime + runtime.run_timestamp() < std::chrono::system_clock::now())
         {
 #ifdef DF__SQF_RUNTIME__ASSEMBLY_DEBUG_ON_EXECUTE
             std::cout << "\x1B[33m[ASSEMBLY ASSERT]\033[0m" <<
@@ -318,6 +318,7 @@ sqf::runtime::runtime::result sqf::runtime::runtime::execute(sqf::runtime::runti
 #endif // SQFVM_RUNTIME_VERIF
             m_is_exit_requested = false;
             m_is_halt_requested = false;
+            m_run_timestamp = std::chrono::system_clock::now();
             auto scopeNum = m_context_active->frames_size() - 1;
             m_state = state::running;
             while (!m_is_exit_requested && !m_is_halt_requested && !m_contexts.empty())
@@ -378,6 +379,7 @@ sqf::runtime::runtime::result sqf::runtime::runtime::execute(sqf::runtime::runti
 #endif // SQFVM_RUNTIME_VERIF
             m_is_exit_requested = false;
             m_is_halt_requested = false;
+            m_run_timestamp = std::chrono::system_clock::now();
             m_state = state::running;
             while (!m_contexts.empty())
             {
@@ -503,6 +505,7 @@ sqf::runtime::runtime::result sqf::runtime::runtime::execute(sqf::runtime::runti
 #endif // SQFVM_RUNTIME_VERIF
             m_is_exit_requested = false;
             m_is_halt_requested = false;
+            m_run_timestamp = std::chrono::system_clock::now();
             m_state = state::running;
             res = execute_do(*this, 1);
             switch (res)
@@ -549,6 +552,7 @@ sqf::runtime::runtime::result sqf::runtime::runtime::execute(sqf::runtime::runti
 #endif // SQFVM_RUNTIME_VERIF
             m_is_exit_requested = false;
             m_is_halt_requested = false;
+            m_run_timestamp = std::chrono::system_clock::now();
             bool success;
             m_state = state::running;
             std::optional<diagnostics::diag_info> dinf;
